@@ -105,14 +105,29 @@ func (e *Exec) callFunc(fn *ssa.Function, args []Value, bindings []Value, deferr
 	if h, ok := intrinsics[name]; ok {
 		return h(e, fn, args)
 	}
+	if e.shouldSummarise(fn) {
+		if v, ok := e.summarise(fn, args); ok {
+			e.funcsSeen[fn] = true
+			return v
+		}
+	}
 	e.depth++
 	if e.depth > maxDepth {
 		e.abort("call depth exceeded at " + name)
 	}
 	caller := e.curFrame
-	fr := &frame{fn: fn, regs: make(map[ssa.Value]Value, 16), deferredBy: deferredBy, caller: caller}
+	fr := e.newFrame(fn, args, bindings, deferredBy)
+	defer func() {
+		e.curFrame = caller
+		e.depth--
+	}()
+	return e.runFrame(fr)
+}
+
+func (e *Exec) newFrame(fn *ssa.Function, args []Value, bindings []Value, deferredBy *frame) *frame {
+	fr := &frame{fn: fn, regs: make(map[ssa.Value]Value, 16), deferredBy: deferredBy, caller: e.curFrame}
 	if len(args) != len(fn.Params) {
-		e.abort(fmt.Sprintf("arity mismatch calling %s: %d vs %d", name, len(args), len(fn.Params)))
+		e.abort(fmt.Sprintf("arity mismatch calling %s: %d vs %d", fn.String(), len(args), len(fn.Params)))
 	}
 	for i, p := range fn.Params {
 		fr.regs[p] = args[i]
@@ -122,11 +137,7 @@ func (e *Exec) callFunc(fn *ssa.Function, args []Value, bindings []Value, deferr
 	}
 	e.curFrame = fr
 	e.funcsSeen[fn] = true
-	defer func() {
-		e.curFrame = caller
-		e.depth--
-	}()
-	return e.runFrame(fr)
+	return fr
 }
 
 func (e *Exec) runFrame(fr *frame) (result Value) {
@@ -510,23 +521,12 @@ func (e *Exec) derefCell(p Value) *Cell {
 func (e *Exec) loadFrom(p Value, t types.Type) Value {
 	switch c := p.(type) {
 	case *SymPtr:
-		// ite chain over scalar cells
-		var acc *Term
-		ok := true
-		for k := len(c.cells) - 1; k >= 0; k-- {
-			tv, isT := c.cells[k].v.(*Term)
-			if !isT {
-				ok = false
-				break
-			}
-			if acc == nil {
-				acc = tv
-			} else {
-				acc = e.ite(e.eq(c.idx, mkBV(64, uint64(k))), tv, acc)
-			}
+		vals := make([]Value, len(c.cells))
+		for k, cell := range c.cells {
+			vals[k] = e.load(cell)
 		}
-		if ok && acc != nil {
-			return acc
+		if v, ok := e.mergeSelect(vals, c.idx); ok {
+			return v
 		}
 		return e.load(e.derefCell(p))
 	case *UPtr:
@@ -677,19 +677,70 @@ func termsToValues(ts []*Term) []Value {
 }
 
 func (e *Exec) selectValue(elems []Value, idx *Term) Value {
-	var acc *Term
-	for k := len(elems) - 1; k >= 0; k-- {
-		tv, isT := elems[k].(*Term)
-		if !isT {
-			return elems[e.concretize(idx, "index into non-scalar array value")]
-		}
-		if acc == nil {
-			acc = tv
-		} else {
-			acc = e.ite(e.eq(idx, mkBV(64, uint64(k))), tv, acc)
-		}
+	if v, ok := e.mergeSelect(elems, idx); ok {
+		return v
 	}
-	return acc
+	return elems[e.concretize(idx, "index into non-scalar array value")]
+}
+
+// mergeSelect builds elems[idx] as an ite-chain when all elements have the same shape
+// (scalars, interfaces of one dynamic type with mergeable payload, structs field-wise)
+func (e *Exec) mergeSelect(elems []Value, idx *Term) (Value, bool) {
+	if len(elems) == 0 {
+		return nil, false
+	}
+	switch first := elems[0].(type) {
+	case *Term:
+		var acc *Term
+		for k := len(elems) - 1; k >= 0; k-- {
+			tv, isT := elems[k].(*Term)
+			if !isT || tv.sort != first.sort {
+				return nil, false
+			}
+			if acc == nil {
+				acc = tv
+			} else {
+				acc = e.ite(e.eq(idx, mkBV(64, uint64(k))), tv, acc)
+			}
+		}
+		return acc, true
+	case IfaceV:
+		if first.t == nil {
+			return nil, false
+		}
+		inner := make([]Value, len(elems))
+		for k, x := range elems {
+			iv, ok := x.(IfaceV)
+			if !ok || iv.t == nil || !types.Identical(iv.t, first.t) {
+				return nil, false
+			}
+			inner[k] = iv.v
+		}
+		v, ok := e.mergeSelect(inner, idx)
+		if !ok {
+			return nil, false
+		}
+		return IfaceV{t: first.t, v: v}, true
+	case StructV:
+		out := make([]Value, len(first.fields))
+		for f := range first.fields {
+			col := make([]Value, len(elems))
+			for k, x := range elems {
+				sv, ok := x.(StructV)
+				if !ok || len(sv.fields) != len(first.fields) {
+					return nil, false
+				}
+				col[k] = sv.fields[f]
+			}
+			v, ok := e.mergeSelect(col, idx)
+			if !ok {
+				return nil, false
+			}
+			out[f] = v
+		}
+		return StructV{out}, true
+	}
+	return nil, false
 }
 
 func (e *Exec) sliceOp(fr *frame, i *ssa.Slice) Value {
